@@ -23,12 +23,15 @@ LEVEL_TEXT = ("Theorems in Coq (Properties/C14.v). In every state reachable from
               "time of its last arming event (creation, accepted heartbeat, the leader change that re-read it from the DB) plus its timeout, "
               "nothing else moves it, a tick expires a session only at or after that deadline and keeps every other session "
               "(c14_timeout_only_after_full_period, c14_tick_keeps_unexpired); a leader change leaves records, sessions and shadow keys as they "
-              "were and arms every session it finds with a full timeout (c14_leader_change_keeps_db).")
+              "were and arms every session it finds with a full timeout (c14_leader_change_keeps_db); KeyToId inverts SessionKey on every "
+              "offset-valued id and, PARTIAL, Initialize finds every session whose key holds decodable metadata "
+              "(c14_key_to_id_session_key, c14_leader_init_finds_session_partial).")
 LEVEL_NOTE = ("Trusted: Coq kernel, extraction (ExtrOcamlBasic), the Go harnesses (gating kv.Factory wrapper, canonicalisation). Partial where the "
               "property lives in the runtime: real timers and goroutine scheduling are not modelled (time.Timer never fires early is assumed); the "
               "sessions leg checks expiry times against the START of the last arming call with a 0.6 x timeout bound only. SessionMetadata "
-              "(de)serialisation and KeyToId are abstracted (Section variables / hex digits without sign). Which sessions Initialize finds after a "
-              "leader change is characterised by the model of readSessions, exercised on the real code, not proved complete. Sequence puts are "
+              "(de)serialisation and KeyToId are abstracted (Section variables / hex digits without sign). c14_leader_init_finds_session_partial assumes that "
+              "Initialize does not fail on another key and that no other listed key parses to the same id (true of DBs written through "
+              "createSession, exercised on the real code by the leader-change scenarios, not part of the proved invariant). Sequence puts are "
               "outside c14_request (a sequence put that lands on an existing key never calls deleteShadow: C16). The client's heartbeat cadence "
               "(oxia/sessions.go: max(timeout/10, 2 s)) is not part of the claim.")
 TRUSTED = ["modelled not verified: Pebble (ordered map, atomic batches, snapshot iterators), protobuf, time.Timer / channels of the session goroutine",
